@@ -40,7 +40,7 @@ def build_tables():
                 steps["storei:%s:%d:%d" % (base, w, off)] = "mov%s $0x%x, %s" % (SUF[w], (0x11223344 + off) & ((1 << w) - 1), addr)
                 steps["loadz:%s:%d:%d" % (base, w, off)] = ("movz%sl %s, %%edx" % (SUF[w], addr)) if w < 32 else ("movl %s, %%edx" % addr)
     misc = ["addl %ecx, %eax", "subl $1, %ebx", "xorl %edx, %edx", "incl %ecx", "negl %eax", "notl %ebx", "leal 4(%eax,%ecx,2), %edx", "xchgl %eax, %ebx",
-            "movl $0x12345678, %eax", "movl $3, %ecx", "movl $0, %ecx", "movl $1, %ecx", "movl $5, %ecx", "movw $0xffff, %dx", "movb $0x7f, %al", "movb $0x80, %ah",
+            "movl $0x12345678, %eax", "movl $3, %ecx", "movl $0, %ecx", "movl $1, %ecx", "movl $5, %ecx", "movw $0xffff, %dx", "movb $0x7f, %al", "movb $0x11, %al", "movb $0x80, %ah",
             "shll $4, %eax", "shrl $1, %ebx", "sarl $31, %edx", "roll $8, %eax", "andl $0xff00, %ebx", "orl %eax, %edx", "adcl %ebx, %eax", "sbbl $0, %edx",
             "cmpl %eax, %ebx", "testl %ecx, %ecx", "sete %al", "sete %ah", "setne %bl", "setb %ch", "setl %dl", "setge %bh", "cmpl %ecx, %ebx", "movzbl %al, %ebx", "movsbl %ah, %ecx", "movzwl %dx, %eax", "imull %ecx, %eax", "cltd", "cld", "std",
             "pushl %eax", "pushl %ebx", "popl %ecx", "popl %edx", "pushl $0x55", "pushw %ax", "popw %bx",
@@ -162,7 +162,13 @@ def run_history(names, codes, nval=3, salt=0, readback=True):
             return detailed
         # one class for both ways of losing track of an alias (the distinction is kept in the class histogram): a rare
         # symptom x class combination must not look like a new defect at some other seed
-        return (detailed[0],) + tuple(detailed[1:3] if detailed[0].endswith("raises") else ()) + ("unresolved-overlap-or-alias",)
+        # two listed families; exactly one label per failure so that symptom x label combinations stay few: memory read-back
+        # symptoms belong to the memory model, register symptoms to the rep termination when that is in play
+        if "symbolic-rep-termination" in hc and not detailed[0].startswith(("readback", "ill-formed-readback")):
+            label = "rep-termination-on-symbolic-flag"
+        else:
+            label = "unresolved-overlap-or-alias"
+        return (detailed[0],) + tuple(detailed[1:3] if detailed[0].endswith("raises") else ()) + (label,)
     const_addrs, sym_offs = set(), {}
     offset = 0
     for idx, name in enumerate(names):
@@ -184,6 +190,7 @@ def run_history(names, codes, nval=3, salt=0, readback=True):
         isrep = (0xF2 in instr.prefix or 0xF3 in instr.prefix) and instr.m.name[:-1] in ("movs", "stos", "lods", "cmps", "scas")
         if isrep and irsem.cname(machine.pool[sem.ecx]) != "ExprInt":
             return "excluded:rep_with_symbolic_count"
+        rep_count0 = models[0].regs["ecx"]
         written_now = []
         isstring = instr.m.name[:-1] in ("movs", "stos", "lods", "cmps", "scas") and len(instr.m.name) == 5
         if isstring and irsem.cname(machine.pool[sem.df]) != "ExprInt":
@@ -234,6 +241,9 @@ def run_history(names, codes, nval=3, salt=0, readback=True):
             fail(dsig("emulation-raises", type(e).__name__, fn, step_class(name)), "step %d (%s) of %s raised %s: %s" % (idx, name, names, type(e).__name__, e))
             run_history.last_class = "+".join(sorted(hclass)) or "clean"
             return fails
+        if isrep and instr.m.name[:-1] in ("cmps", "scas") and rep_count0 != 0 and irsem.cname(machine.pool[sem.zf]) != "ExprInt":
+            # the data compared are symbolic, so the machine cannot know where repe / repne stops: it runs the full count
+            hclass.add("symbolic-rep-termination")
         # ---- registers
         for ri, r in enumerate(GPR + FLAGS):
             try:
@@ -468,6 +478,50 @@ def collect_failing(run, hs, codes):
     return keys
 
 
+def rep_histories(codes):
+    """every rep form x direction x concrete count (incl. 0) x data set-ups that make the compared data concrete (equal / different)"""
+    reps = [n for n in sorted(codes) if n.startswith("x:rep")]
+    fill = lambda: ["x:movl $5, %ecx", "x:rep stosb"]
+    setups = {"symbolic-data": [],
+              # both compared regions hold 0x7f: repe runs the full count, repne stops at once
+              "equal-data": ["x:cld", "x:movb $0x7f, %al", "x:movl %esi, %edi"] + fill() + ["x:leal 16(%esi), %edi"] + fill() + ["x:leal 16(%esi), %edi"],
+              # the second region holds another byte: repe stops at once, repne runs the full count
+              "different-data": ["x:cld", "x:movb $0x7f, %al", "x:movl %esi, %edi"] + fill() + ["x:movb $0x11, %al", "x:leal 16(%esi), %edi"] + fill() + ["x:leal 16(%esi), %edi"],
+              # scas: al equal to / different from the scanned bytes
+              "scan-equal": ["x:cld", "x:movb $0x7f, %al", "x:leal 16(%esi), %edi"] + fill() + ["x:leal 16(%esi), %edi"],
+              "scan-different": ["x:cld", "x:movb $0x7f, %al", "x:leal 16(%esi), %edi"] + fill() + ["x:movb $0x11, %al", "x:leal 16(%esi), %edi"]}
+    out = []
+    for d in ("x:cld", "x:std"):
+        for sname, setup in sorted(setups.items()):
+            if d == "x:std" and sname != "symbolic-data":
+                continue            # the set-ups fill upwards
+            for n in ("x:movl $0, %ecx", "x:movl $1, %ecx", "x:movl $3, %ecx", "x:movl $5, %ecx"):
+                for r in reps:
+                    h = ([d] if sname == "symbolic-data" else []) + setup + [n, r]
+                    if all(x in codes for x in h):
+                        out.append(h)
+    return out
+
+
+def w_rep(run, st_, k, item):
+    hs, codes = item
+    for h in hs:
+        st_.ev()
+        r = run_history(h, codes, salt=k)
+        if isinstance(r, str):
+            st_.exclude(r.split(":", 1)[1])
+            continue
+        st_.klass("rep_history_class_" + run_history.last_class)
+        if not r:
+            st_.nt(tuple(h))
+            st_.sample(list(h))
+        for sig, det in r:
+            if sig in run.known:
+                st_.known_hits[sig] += 1
+            elif not any(f[0] == sig for f in st_.failures):
+                st_.fail(sig, det, {"history": list(h)})
+
+
 def exhaustive_histories(codes, bases):
     out = []
     for b in bases:
@@ -495,6 +549,7 @@ def main(run):
                        "valuations place init_esi / init_edi / init_esp in disjoint regions (the machine treats different symbolic bases as non-aliasing by design)",
                        "the shared default eval_cache is cleared per history (C12's subject)"]
     runner.pmap(run, w_hist, [(run.pick(250, 3000), codes)] * 16)
+    runner.pmap(run, w_rep, [(c, codes) for c in runner.chunks(rep_histories(codes), 12)])
     hs = exhaustive_histories(codes, run.pick(["s"], ["s", "c"]))
     baseline = load_baseline()
     run.extra["exhaustive_histories"] = len(hs)
